@@ -1,6 +1,7 @@
 /- Driver.History — the `history` engine (C02): judges every step of a history of modifying calls. -/
 import Hw.Topo.History
 import Hw.Topo.InsertWF
+import Hw.Topo.RenderOf
 import Driver.Topo
 namespace Driver.HistoryEng
 open Hw.Topo Hw.Topo.Hist Driver
@@ -79,6 +80,68 @@ def parseGroupArgs (d : Dump) (t : List String) : Option Ins.GArgs :=
     pure { cpuset := c, nodeset := n, dm := dm != 0, kind := k, subkind := sk }
   | _ => none
 
+/-! ### renderer tie for the two calls that change the tree shape: the WHOLE dump after the call (ids, every link, levels,
+cousins, type depths) is predicted by `render` from the predicted tree; carried from the real dump: attributes / names /
+infos / total_memory / symmetric_subtree, and the four sets of a NEW Group -/
+
+open Hw.Topo.Restrict in
+def renderAgainst (pred : Tree) (prev new : Dump) : Option String :=
+  let tn := gpTable new
+  dumpDiff (render pred ⟨prev.flags, prev.filters, prev.allowedCpuset, prev.allowedNodeset⟩ (extraOf tn tn)) new
+
+open Hw.Topo.Restrict in
+/-- `OP misc <objid> <namehex>`: hwloc_topology_insert_misc_object appends the new object at the END of the parent's Misc list;
+    EINVAL and nothing changes when the Misc filter is KEEP_NONE -/
+def judgeMisc (prev new : Dump) (op : List String) (ret : Option (Int × String)) : List String :=
+  match op with
+  | ["misc", id, name] =>
+    match parseNat id, optStr name, Hw.Topo.Restrict.treeOf prev with
+    | some id, some name, .ok tree =>
+      let rc := (ret.map (·.1)).getD 99
+      let en := (ret.map (·.2)).getD ""
+      if (prev.filters[tMISC]?).getD 0 == 1 then
+        (if rc == -1 && en == "EINVAL" then [] else ["misc-render-differs:return-with-filter-keep-none"]) ++
+        (if prev == new then [] else ["misc-render-differs:modified-on-failure"])
+      else
+        match new.objs.find? (fun o => !(prev.objs.any (fun p => p.gp == o.gp))) with
+        | none => ["misc-render-differs:no-new-object"]
+        | some no =>
+          let pred := insertMiscT (id % prev.objs.length) (.node (miscObj no.gp) [] [] [] []) 0 tree
+          (if rc == 0 then [] else ["misc-render-differs:return"]) ++
+          (if no.type == tMISC && no.name == name then [] else ["misc-render-differs:new-object-type-or-name"]) ++
+          (match renderAgainst pred prev new with | none => [] | some s => ["misc-render-differs:" ++ s])
+    | _, _, .error e => ["misc-before-dump-not-a-tree:" ++ e]
+    | _, _, _ => ["misc-op-unparsable"]
+  | _ => ["misc-op-unparsable"]
+
+/-- the model's predicted normal tree (gp-labelled, with the memory children of every normal object) as a four-list tree:
+    normal objects and the order of their children from the prediction, every subtree that the insertion does not touch
+    (memory subtrees, I/O and Misc lists) from the BEFORE tree, the new Group (if any) from the real dump -/
+def convT (before : Hw.Topo.Restrict.Tree) (newObj : Nat → Option Hw.Topo.Restrict.RObj) (touched : Nat) : Ins.T → Hw.Topo.Restrict.Tree
+  | .node o kids =>
+    let base := Hw.Topo.Restrict.findGpT o.gp before
+    -- the new Group, or the Group it was merged into (hwloc_replace_linked_object may overwrite its contents), comes from the real dump
+    let robj0 := match base with
+      | some b => if o.gp == touched then (newObj o.gp).getD b.obj else b.obj
+      | none => (newObj o.gp).getD default
+    -- Group attributes (kind, subkind, dont_merge: merged into an existing Group by the call) are the model's prediction
+    let robj := if o.type == tGROUP then { robj0 with gkind := o.kind, gsubkind := o.subkind, dmByte := if o.dm then 1 else 0 } else robj0
+    .node robj (convL before newObj touched kids) (o.mem.filterMap (fun g => Hw.Topo.Restrict.findGpT g before))
+      ((base.map (·.ios)).getD []) ((base.map (·.mis)).getD [])
+where convL (before : Hw.Topo.Restrict.Tree) (newObj : Nat → Option Hw.Topo.Restrict.RObj) (touched : Nat) : List Ins.T → List Hw.Topo.Restrict.Tree
+  | [] => []
+  | c :: cs => convT before newObj touched c :: convL before newObj touched cs
+
+open Hw.Topo.Restrict in
+def groupRender (prev new : Dump) (t : Ins.T) (touched : Nat) : List String :=
+  match Hw.Topo.Restrict.treeOf prev with
+  | .error e => ["group-before-dump-not-a-tree:" ++ e]
+  | .ok before =>
+    let newObj (g : Nat) : Option RObj := (new.objs.find? (fun o => o.gp == g)).map robjOf
+    match renderAgainst (convT before newObj touched t) prev new with
+    | none => []
+    | some s => ["group-render-differs:" ++ s]
+
 /-- judgement of an `OP group` step: `[]` when the return class and the whole tree shape (parents, order, Group attributes, memory
 children of every normal object) are the ones the model predicts -/
 def judgeGroup (prev new : Dump) (op : List String) (ret : Option (Int × String)) : List String :=
@@ -88,7 +151,8 @@ def judgeGroup (prev new : Dump) (op : List String) (ret : Option (Int × String
     let newGp := ((new.objs.find? (fun o => !(prev.objs.any (fun p => p.gp == o.gp)))).map (·.gp)).getD 0
     let rc := (ret.map (·.1)).getD 99
     let after := Ins.rows 0 (treeOf new)
-    let shape (t : Ins.T) : List String := if Ins.rows 0 t == after then [] else ["group-shape-differs-from-model"]
+    let shape (t : Ins.T) (touched : Nat := newGp) : List String :=
+      (if Ins.rows 0 t == after then [] else ["group-shape-differs-from-model"]) ++ groupRender prev new t touched
     -- hypothesis of the insertion theorems (C02_insert_*): the real tree is laminar (sound check `lamB`)
     (if Ins.lamB (treeOf prev) then [] else ["group-precondition-tree-not-laminar"]) ++
     match Ins.insertGroup ((prev.filters[tGROUP]?).getD 0) (r.cpuset.getD 0) (r.nodeset.getD 0) numas (treeOf prev) newGp a with
@@ -98,7 +162,7 @@ def judgeGroup (prev new : Dump) (op : List String) (ret : Option (Int × String
     | .core _ (.merged t g) =>
       -- merged into a Group: the same completion and reordering run on that Group
       let isGroup := prev.objs.any (fun o => o.gp == g && o.type == tGROUP)
-      (if rc == 1 then [] else ["group-return-differs-from-model:merged"]) ++ shape (if isGroup then Ins.fixOrder g t else t)
+      (if rc == 1 then [] else ["group-return-differs-from-model:merged"]) ++ shape (if isGroup then Ins.fixOrder g t else t) g
     | .core _ (.failed t) => (if rc == -1 then [] else ["group-return-differs-from-model:failed"]) ++ shape t
     | .core _ .stuck => ["group-model-stuck"]
   | _, _ => ["group-op-unparsable"]
@@ -122,7 +186,8 @@ def judge (st : St) (new : Dump) : String :=
           if failed && (opname == "restrict" || opname == "allow" || opname == "group") then
             (if prev == new then [] else ["modified-on-failure:" ++ firstDiff prev new])
           else []
-      let gi := if opname == "group" then judgeGroup prev new st.op st.ret else []
+      let gi := if opname == "group" then judgeGroup prev new st.op st.ret
+                else if opname == "misc" then judgeMisc prev new st.op st.ret else []
       g ++ p ++ gi
   let rs := r1 ++ r2
   if rs.isEmpty then "OK" else "FAIL " ++ " ".intercalate rs
